@@ -379,9 +379,16 @@ func c17(r *ev.Run) {
 	hexStrs = append(hexStrs, "132d0b6", "0132D0B6", "ffffffffffffffff", "0ffffffffffffffff", "zz", " 1", "1 ", "0x1", "-1", "+1")
 	for _, s := range hexStrs {
 		cases = append(cases, c17Case{Helper: "ParseHexTimestamp", Args: []string{s}})
+		ws := []int{63, 64, 65, 126, 127, 128, 129, 130, 131, 132, 200, 254, 255, 256, 257, 258, 259, 260, 300, 511, 512, 513, 1000, 1024, 4096, 65536}
 		for w := 0; w <= 40; w++ {
+			ws = append(ws, w)
+		}
+		for _, w := range ws {
 			if len(s) > 3 && w%3 != len(s)%3 {
 				continue
+			}
+			if w > 40 && len(s) > 3 && len(s) != 7 && len(s) != 16 {
+				continue // the wide fields meet the short texts and two longer ones
 			}
 			cases = append(cases, c17Case{Helper: "LeftPadHex", Args: []string{s}, N: uint64(w)})
 			if w <= 20 {
@@ -487,7 +494,7 @@ func c17(r *ev.Run) {
 	r.Sample(c17Case{Helper: "ParseDecimalChallengeRFC6287", Args: []string{"4095"}})
 	r.Sample(c17Case{Helper: "question-e2e", Args: []string{"OCRA-1:HOTP-SHA1-6:QN08", "11111111"}})
 	r.Sample(c17Case{Helper: "HexInputToOCRA", Args: []string{"0000000000000001", "zz", "", "abcdef", "ff"}})
-	r.Rule("every helper on every text of its alphabet (all decimal strings of length <= 4 (thorough 5) over {0-9,+,-,space,a,_,x,X,.}, all hex strings <= 3 (thorough 5) over {0,9,a,F,g,x,space}, lengths 0..40 x widths 0..40, all 3^5 valid/invalid/empty field combinations x 2 contents, every decimal question of 1..5 (thorough 6) digits, patterned questions of 6..64 digits incl. 16^k and 16^k +- 1) vs independent encoders (math/big, fmt, encoding/binary); end to end through GenerateOCRA for every registered numeric suite and hand-built numeric suites of every hash x digits 4..10; distinct = distinct (helper, outcome) pairs")
+	r.Rule("every helper on every text of its alphabet (all decimal strings of length <= 4 (thorough 5) over {0-9,+,-,space,a,_,x,X,.}, all hex strings <= 3 (thorough 5) over {0,9,a,F,g,x,space}, lengths 0..40 x widths 0..40 and 26 widths up to 65536, all 3^5 valid/invalid/empty field combinations x 2 contents, every decimal question of 1..5 (thorough 6) digits, patterned questions of 6..64 digits incl. 16^k and 16^k +- 1) vs independent encoders (math/big, fmt, encoding/binary); end to end through GenerateOCRA for every registered numeric suite and hand-built numeric suites of every hash x digits 4..10; distinct = distinct (helper, outcome) pairs")
 	r.Assume("a leading '+' in decimal text is not decided (documentation silent, Go parsers differ); hex timestamps longer than 16 digits and questions beyond 256 hex digits are outside the property")
 }
 
